@@ -4,7 +4,7 @@ PROPS = {}
 HOOK_COMMITS = ["4bf9c3e", "fb2c1fb"]
 NOT_APPLICABLE = {}
 # properties whose check exists but is being brought in line with repairs just made in /repo: not claimed until green
-PENDING = {"C16": "not yet claimed again: the model is being updated to the F70 repair (4e55b2c) just committed in /repo"}
+PENDING = {}
 
 PROPS["C19"] = {
     "gen": ["gen_color_table.py"],
@@ -618,33 +618,44 @@ PROPS["C16"] = {
     "gen": [],
     "lean": ["QV.Props.C16"],
     "streams": ["c16"],
-    "rule": "c16-compile (oracle): batches of generated documents (operator/builtin probes: every operator of docs/language.md x "
-            "11 operand types x dynamic/constant operands in binding and callback position, Math.max/min, casts, ternaries, "
-            "console.*, subscripts, lists, methods, float/integer literals; documents with 0..130 bindings; gadget sub-bindings "
-            "(QFont, QSizePolicy); colliding name prefixes; the shared rich_document generator; inventory documents with "
-            "arbitrary string literals) translated by the real pipeline in generate mode, every ACCEPTED header compiled with "
-            "g++ -std=c++17 -fsyntax-only together with a mini-uic ui_*.h against declarations generated by "
-            "tools/gen_mock_decls.py from the SAME tweaked metatypes on cxx/qtmock.h; c16-scan (oracle): token scan of the real "
-            "header (each this->setup/update/eval/on call has exactly one definition, definitions pairwise distinct and all used, "
-            "BindingIndex enumerators distinct = number of update functions, each update uses its own enumerator, bindingGuard_[N] "
-            "with N = ceil(n/32) >= 1 iff n > 0 and indexed by index >> 5 only, observer arrays non-empty, owned by one function "
-            "and larger than every observed[k], std::max/min => <algorithm>, qDebug.. => <QtDebug>, exactly the ui_ include); "
-            "c16-inv (model): header inventory of the real header (includes, setup() calls, index enum, member functions in "
-            "order, guard size, observer arrays, spelled literals) = Lean model; c16-lit (model): spelling of a source string "
-            "in the real header = Model.formatStringLiteral; c16-literals (oracle): every emitted spelling compiled AND RUN, the "
-            "UTF-16 units / bytes printed by the program = the source string; spec-cxxlit (spec): g++'s reading of 2400 random "
-            "spellings (incl. ill-formed ones) = Spec.CxxLit.decode16/decode8; distinct = distinct requests",
+    "rule": "c16-compile (oracle): batches of generated documents translated by the real pipeline in generate mode, every ACCEPTED "
+            "header compiled with g++ -std=c++17 -fsyntax-only together with a mini-uic ui_*.h against declarations generated by "
+            "tools/gen_mock_decls.py from the SAME tweaked metatypes on cxx/qtmock.h.  Documents: operator/builtin probes (every "
+            "operator of docs/language.md x 12 operand types incl. scoped enumerations x dynamic/constant operands in binding and "
+            "callback position, Math.max/min, casts, ternaries, console.*, subscripts, lists, methods, float/integer literals, "
+            "statement blocks incl. gadget sub-bindings with early returns); documents with 0..130 bindings; gadget sub-bindings "
+            "(QFont, QSizePolicy); name-split families: one identifier split in every way between object id and binding path (plain "
+            "property, gadget map + member at every cut, signal callback, trailing digit on the name or on the gadget property, all "
+            "prefixes of the identifier); enumerator spellings: 18 enumerations (scoped and unscoped enumerations of classes, of "
+            "namespace Qt and of gadgets incl. every `enum class` of the Qt 5 metatypes, flag aliases) x 11 positions (ternary+cast, "
+            "==/!=, case labels, callback bodies, gadget sub-bindings, constant gadget members, values of the enumeration's type, "
+            "bitwise operators); the shared rich_document generator; inventory documents with arbitrary string literals.  "
+            "c16-scan (oracle): token scan of the real header (each this->setup/update/eval/on call has exactly one definition, "
+            "definitions pairwise distinct and all used, BindingIndex enumerators distinct = number of update functions, each update "
+            "uses its own enumerator, bindingGuard_[N] with N = ceil(n/32) >= 1 iff n > 0 and indexed by index >> 5 only, observer "
+            "arrays non-empty, owned by one function and larger than every observed[k], std::max/min => <algorithm>, std::fmod => "
+            "<cmath>, qDebug.. => <QtDebug>, exactly the ui_ include); c16-inv (model): header inventory of the real header "
+            "(includes, setup() calls, index enum, member functions in order, guard size, observer arrays, spelled literals, spelled "
+            "enumerator operands, number of static_cast<int>( ) = Lean model, for inventory, name-split and enumerator documents; "
+            "c16-lit (model): spelling of a source string in the real header = Model.formatStringLiteral; c16-literals (oracle): "
+            "every emitted spelling compiled AND RUN, the UTF-16 units / bytes printed by the program = the source string; "
+            "c16-rejects (oracle): bodies that do not return a value of the property type on every path must be refused with the "
+            "return-type diagnostic, in gadget sub-bindings exactly as in plain bindings; spec-cxxlit (spec): g++'s reading of 2400 "
+            "random spellings (incl. ill-formed ones) = Spec.CxxLit.decode16/decode8; distinct = distinct requests",
     "trusted_base": [
         "g++ 12 (-std=c++17) as the C++ compiler; cxx/qtmock.h + cxx/QtDebug: hand-written mock of the documented Qt 5 API "
         "(QString/QStringLiteral, QFlags + Q_DECLARE_OPERATORS_FOR_FLAGS as in qflags.h of Qt 5, QList != QVector, "
         "QObject::connect(sender, pmf, context, functor) with Qt's sender/argument-prefix checks, QOverload, QDebug incomplete "
         "without <QtDebug>, Q_ASSERT_X, qInf/qQNaN)",
-        "tools/gen_mock_decls.py: classes/enums/flags/properties (READ/WRITE members)/signals/slots/methods from the tweaked "
-        "metatypes dumped by the harness; argument passing convention (class types by const reference) is Qt's convention, "
-        "not recorded in metatypes; default-argument signal families are merged into one member with default arguments",
+        "tools/gen_mock_decls.py: classes/enums (enum and enum class)/flags/properties (READ/WRITE members)/signals/slots/methods "
+        "from the tweaked metatypes dumped by the harness; argument passing convention (class types by const reference) is Qt's "
+        "convention, not recorded in metatypes; default-argument signal families are merged into one member with default arguments",
         "tools/mini_uic.py: Ui::<Class> with one typed pointer per named widget/layout/spacer/action except the root (expat)",
-        "harness token scanner of the header; the generator's pretty-printer and its abstract description of each inventory "
-        "document (which bindings are dynamic, observer counts, builtin uses, literals)",
+        "harness token scanner of the header (incl. its rule for 'qualified name in operand position = enumerator operand'); the "
+        "generator's pretty-printer and its abstract description of each inventory document (which bindings are dynamic, observer "
+        "counts, builtin uses, literals, enumerator uses, casts)",
+        "the harness's own verification classes WBase/WDerived/WGadget (properties of every kind, scoped and unscoped enumerations, "
+        "flag alias, name-split property families) loaded next to the Qt 5 metatypes",
         "QV.Model.RustDebugTable: which characters Rust's Debug prints as \\u{..}: 909 ranges measured on the installed "
         "toolchain (static file, used only by the old-behaviour witnesses; tools/gen_rust_debug_table.py regenerates it by hand)",
         "QV.Spec.CxxLit written from [lex.string]/[lex.ccon]; out-of-range numeric escapes (implementation-defined) count as "
@@ -664,23 +675,30 @@ PROPS["C16"] = {
                   "UiSupportCode::build (all objects, gadget sub-bindings whose prefixes are built from generated names, callbacks) no "
                   "name is issued twice and the setup/update/eval/on member functions are pairwise distinct (corollary of C10's "
                   "generate_fresh); index_per_binding; guard_large_enough + guard_slots_distinct + guard_decl ((n+31)/32 words, "
-                  "index>>5 inside, (word,bit) injective, no zero-length array); observer_arrays_large_enough; includes_cover; "
-                  "literal_roundtrip / literal_roundtrip_narrow - for EVERY string the spelling written by format_cxx_string_literal is read "
-                  "by the C++17 literal reader as exactly the UTF-16 units / UTF-8 bytes of the string (octal3_read: a 3-digit octal escape "
-                  "cannot absorb a following digit); ops_subset_cxx (arithmetic incl. std::fmod with its <cmath> use, comparison without "
-                  "pointer ordering, enum bitwise operators through the double cast, with and without Q_DECLARE_OPERATORS_FOR_FLAGS); "
-                  "builtin_calls_welltyped (std::max/min incl. the explicit <uint>) proved in full over small typing tables; the "
-                  "pre-repair behaviour is kept as ...Old definitions with kernel-checked witnesses (F3b, F3a, F13, F23, F24). Compilability "
-                  "is checked by g++ on every accepted generated header.",
-    "level_note": "trusted: Lean kernel; model tied by exact comparison of header inventories and literal spellings (quick: 1448 model "
-                  "cases, 0 disagreements) and Spec.CxxLit tied to g++ (2400 spellings, 0 disagreements); compile oracle: quick tier "
-                  "about 1600 accepted documents in 60 translation units; F3a, F3b, F13, F22, F23, F24 repaired in /repo (0f767b2, 5f82544, bd13865, 61d18c3, "
-                  "17832f1, 5a4a210), witnesses replayed as regression cases from corpus/C16; F25 (enumerator typed as its QFlags alias) is a "
-                  "known finding, matched only when every g++ message of the failing batch is the QFlags->enumeration conversion error",
+                  "index>>5 inside, (word,bit) injective, no zero-length array); observer_arrays_large_enough; includes_cover (<algorithm>, "
+                  "<QtDebug>, <cmath>); literal_roundtrip / literal_roundtrip_narrow - for EVERY string the spelling written by "
+                  "format_cxx_string_literal is read by the C++17 literal reader as exactly the UTF-16 units / UTF-8 bytes of the string "
+                  "(octal3_read: a 3-digit octal escape cannot absorb a following digit); enumerator_spelling_resolves (every enumerator "
+                  "operand is spelled by a qualified name that denotes it; a scoped enumerator only through its enumeration); "
+                  "ops_subset_cxx (arithmetic incl. std::fmod with its <cmath> use, comparison without pointer ordering, bitwise operators "
+                  "with unscoped, QFlags and scoped enumeration operands - scoped ones printed as static_cast<int>(operand) - through the "
+                  "double cast, with and without Q_DECLARE_OPERATORS_FOR_FLAGS); builtin_calls_welltyped (std::max/min incl. the explicit "
+                  "<uint>) proved in full over small typing tables; the pre-repair behaviour is kept as ...Old/...Pre70 definitions with "
+                  "kernel-checked witnesses (F3b, F3a, F13, F23, F24, F70). Compilability is checked by g++ on every accepted generated header.",
+    "level_note": "trusted: Lean kernel; model tied by exact comparison of header inventories (names, indexes, arrays, includes, literal "
+                  "and enumerator spellings, int casts) and literal spellings (quick, seed 1: 2354 generated + 27 corpus cases, 1768 model "
+                  "comparisons, 0 disagreements) and Spec.CxxLit tied to g++ (2400 spellings, 0 disagreements); compile oracle: quick tier "
+                  "about 3000 accepted documents in 74 translation units, 14 s wall; F3a, F3b, F13, F22, F23, F24, F70 repaired in "
+                  "/repo (0f767b2, 5f82544, bd13865, 61d18c3, 17832f1, 5a4a210, 4e55b2c), witnesses replayed as regression cases from "
+                  "corpus/C16; F25 (enumerator typed as its QFlags alias) is a known finding, matched only when every g++ message of the "
+                  "failing batch is the QFlags->enumeration conversion error; the seeded changes C16/1-4 and C06/2 are each found with "
+                  "failing inputs (c16-compile/c16-scan/c16-inv/c16-rejects); qualify_cxx_variant_name and format_bitwise_operand are "
+                  "pinned modelled functions",
     "technique": "Lean 4 proof (freshness invariant threaded through the build loop, tag injectivity, shift/mask arithmetic, "
-                 "state-machine literal reader round trip) + refutation witnesses + differential correspondence + compile-and-run "
-                 "oracle with g++ against declarations generated from the same metatypes",
+                 "state-machine literal reader round trip, small C++ typing tables) + refutation witnesses + differential correspondence "
+                 "+ compile-and-run oracle with g++ against declarations generated from the same metatypes",
 }
+
 
 PROPS["C02"] = {
     "gen": ["gen_verif_env.py"],
